@@ -339,6 +339,60 @@ thread_local! {
     static FIRST_SEEN_SALT: std::cell::Cell<u64> = const { std::cell::Cell::new(0x1234_5678_9abc_def1) };
 }
 
+/// Scale: one snapshot of 150 000 addresses merged by the reporter in a single pass, and byte
+/// totals beyond 4 GiB for one address (two workers, 3 GB each): sums are sums at any size.
+fn large_merge(out: &mut Out, rng: &mut Rng) {
+    let r = catch_unwind(AssertUnwindSafe(|| {
+        let n = 150_000usize;
+        let mut w = PerClientStats::verif_with_limit(n + 10);
+        let mut w2 = PerClientStats::verif_with_limit(16);
+        let big: IpAddr = IpAddr::V4(Ipv4Addr::new(192, 0, 2, 1));
+        for i in 0..n {
+            let a = IpAddr::V4(Ipv4Addr::new(11, (i >> 16) as u8, (i >> 8) as u8, i as u8));
+            w.add_classic_request(&a);
+            if i % 3 == 0 {
+                w.add_classic_response(&a, 360 + (i % 7));
+            }
+        }
+        let chunk = 1_000_000_000usize + rng.below(1000) as usize;
+        for _ in 0..3 {
+            w.add_rfc_response(&big, chunk);
+            w2.add_rfc_response(&big, chunk);
+        }
+        let q = Arc::new(StatsQueue::new(8));
+        q.force_push(w.iter().map(|(_, s)| *s).collect());
+        q.force_push(w2.iter().map(|(_, s)| *s).collect());
+        let mut rep = Reporter::new(q.clone(), &Duration::from_secs(3600), None);
+        // the reporter's loop calls this once a second until the queue is empty
+        for _ in 0..4 {
+            rep.receive_client_stats();
+        }
+        let merged: HashMap<IpAddr, Ctrs> = rep.verif_merged().map(|c| (c.ip_addr, ctrs_of(c))).collect();
+        out.obs("large_merge_runs", 1);
+        out.obs("large_merge_addresses", merged.len() as i64);
+        let desc = json!({"kind":"stats-merge-large","addresses":n});
+        if merged.len() != n + 1 {
+            out.violation("C17 reporter merge loses-or-invents addresses large-snapshot", &format!("{} addresses pushed in one snapshot, {} in the merged table", n + 1, merged.len()), desc.clone());
+            return;
+        }
+        let reqs: u64 = merged.values().map(|c| c[1]).sum();
+        let resp: u64 = merged.values().map(|c| c[5]).sum();
+        if reqs != n as u64 || resp != ((n + 2) / 3) as u64 {
+            out.violation("C17 reporter merge loses-or-invents field#1 large-snapshot", &format!("{} classic requests / {} responses recorded, merged totals {} / {}", n, (n + 2) / 3, reqs, resp), desc.clone());
+        }
+        let want_big = 6 * chunk as u64;
+        let got_big = merged.get(&big).map(|c| c[6]).unwrap_or(0);
+        if got_big != want_big {
+            out.violation("C17 reporter merge loses-or-invents field#6 beyond-4GiB", &format!("address {}: {} bytes sent over two workers, merged {}", big, want_big, got_big), desc);
+        }
+    }));
+    out.case(0x1a46e, true);
+    if r.is_err() {
+        let p = take_panics().join(" | ");
+        out.violation(&format!("C17 panic {} large-merge", crate::c05::panic_site(&p)), &p, json!({"kind":"stats-merge-large"}));
+    }
+}
+
 fn random_seq(rng: &mut Rng, len: usize, naddr: usize) -> Seq {
     (0..len).map(|_| (rng.usize_below(NOPS), rng.usize_below(naddr), rng.range(0, 1500) as usize)).collect()
 }
@@ -459,6 +513,10 @@ pub fn run(ctx: &Ctx, out: &mut Out) {
     let _ = std::fs::remove_dir_all(&csvdir);
     // (3) stepped in-process server, recorder read at quiescent points
     crate::c09::run(ctx, out, "C17");
+    if ctx.shard % 4 == 1 {
+        large_merge(out, &mut rng);
+    }
+    out.floor("large_merge_runs", 1);
     out.floor("exhaustive_sequences", 100_000);
     out.floor("sequences_with_overflow", 10_000);
     out.floor("merge_runs", 500);
